@@ -278,3 +278,33 @@ func VC_C05_overlapping() {
 	}
 	verifReached("C05.overlap")
 }
+
+// VC_C05_default_in_steps: a default sequence configured in several steps while no
+// condition is open (Returns then Returns; Return then Return().AndReturn(); Returns, a
+// call, then Return): the rows are served in the order they were given, the last sticks.
+func VC_C05_default_in_steps() {
+	d0, d1, d2, d3 := verifInt("d0"), verifInt("d1"), verifInt("d2"), verifInt("d3")
+	w := NewWhen(reflect.TypeOf(vC05F))
+	f := reflect.MakeFunc(w.funcTyp, func(args []reflect.Value) []reflect.Value { return w.invoke(args) }).Interface().(func(int) int)
+	var want [5]int
+	n := 0
+	switch verifChoice("steps", 3) {
+	case 0:
+		w.Returns(d0, d1)
+		w.Returns(d2, d3)
+		want, n = [5]int{d0, d1, d2, d3, d3}, 5
+	case 1:
+		w.Return(d0)
+		w.Return(d1).AndReturn(d2)
+		want, n = [5]int{d0, d1, d2, d2, d2}, 5
+	default:
+		w.Returns(d0, d1, d2)
+		verifAssert(f(1) == d0, "C05.default-steps.rows-in-order")
+		w.Return(d3)
+		want, n = [5]int{d1, d2, d3, d3, d3}, 5
+	}
+	for i := 0; i < n; i++ {
+		verifAssert(f(1) == want[i], "C05.default-steps.rows-in-order")
+	}
+	verifReached("C05.default-steps")
+}
